@@ -248,11 +248,20 @@ func removeIncludedTaxes(doc billable) error {
 		return err
 	}
 
-	// Account for any rounding errors that we just can't handle
-	t := doc.getTotals()
-	if !totalWithTax.Equals(t.TotalWithTax) {
+	// Account for any rounding errors that we just can't handle. Amounts that
+	// had the tax removed are presented with the currency's precision after
+	// the first calculation, which may alter the result of the second one, so
+	// check again that the amount to pay is the one we started with.
+	for i := 0; i < 2; i++ {
+		t := doc.getTotals()
+		if totalWithTax.Equals(t.Payable) {
+			break
+		}
 		rnd := totalWithTax.Subtract(t.TotalWithTax)
-		t.Rounding = &rnd
+		t.Rounding = nil
+		if !rnd.IsZero() {
+			t.Rounding = &rnd
+		}
 		if err := calculate(doc); err != nil {
 			return err
 		}
